@@ -387,6 +387,13 @@ package parser
 //@     invariant [C06:tables-inv] TextTableOK(p) && MoveTableOK(p)
 //@     invariant [C18:program] program != nil && fresh(program) && TextStmtsOK(p) && (forall k int :: {program.TopLevelStatements[k]} (0 <= k && k < len(program.TopLevelStatements)) ==> MoveNamed(program.TopLevelStatements[k]))
 //@   loop 2
+// every explicit text statement becomes one program text with its own name, value, string type, token and scope
+// (exported exactly when its scope is global); the texts collected so far are never touched (C09, C15, C16)
+//@     transition [C09,C15,C16:explicit-text] len(program.Texts) == len(prev(program.Texts)) + 1
+//@        && program.Texts[len(prev(program.Texts))].Name == p.textStatements[prev($i)].Name.Value && program.Texts[len(prev(program.Texts))].Value == p.textStatements[prev($i)].Value
+//@        && program.Texts[len(prev(program.Texts))].StringType == p.textStatements[prev($i)].StringType && program.Texts[len(prev(program.Texts))].Token == p.textStatements[prev($i)].Token
+//@        && program.Texts[len(prev(program.Texts))].IsGlobal == (p.textStatements[prev($i)].Scope == token.GLOBAL)
+//@        && (forall k int :: {program.Texts[k]} (0 <= k && k < len(prev(program.Texts))) ==> program.Texts[k] == prev(program.Texts)[k])
 //@     invariant [C18:program] program != nil && fresh(program) && TextStmtsOK(p)
 //@     invariant [C16,C18:text-tokens] forall k int :: {program.Texts[k]} (0 <= k && k < len(program.Texts)) ==> TokLoc(program.Texts[k].Token)
 //@   loop 3
